@@ -94,8 +94,12 @@ func (j *Job) Cancel() {
 	}
 	j.s.jobs[j.ID] = nil
 	delete(j.s.jobs, j.ID)
+	// NOTE: The Status is stored before the waiters are released: Wait, IsDone
+	//       and IsError do not take the lock, a caller released by the close
+	//       must already see the final Status.
+	j.Status = StatusCanceled
 	close(j.done)
-	j.Status, j.done = StatusCanceled, nil
+	j.done = nil
 	if j.s.lock.Unlock(); j.Update == nil {
 		return
 	}
